@@ -1,11 +1,11 @@
 /-
   Lemmas/RawClosure.lean — a reusable induction principle for properties of the event trace:
   the trace of every combinator body is built from the traces of its sub-rule calls by
-  concatenation, plus `raise` events.  Any predicate closed under that holds for every body.
-  (Used by C08, C04, C06.)
+  concatenation, plus `raise` events and the events of state objects.  Any predicate closed under
+  that holds for every body.  (Instance of RawClosureE.lean for predicates that do not depend on the
+  environment.  Used by C08, C04, C06.)
 -/
-import PegtlVerif.Model.Run
-import PegtlVerif.Lemmas.Rewind
+import PegtlVerif.Lemmas.RawClosureE
 
 namespace Pegtl
 
@@ -13,410 +13,33 @@ structure RawClosed (Q : List Ev → Prop) : Prop where
   nil : Q []
   app : ∀ {a b}, Q a → Q b → Q (a ++ b)
   raise : ∀ i c, Q [Ev.raise i c]
+  sctor : ∀ d, Q [Ev.sctor d]
+  ssucc : ∀ d c o, Q [Ev.ssucc d c o]
+  sdtor : ∀ d, Q [Ev.sdtor d]
 
 def QRec (Q : List Ev → Prop) (rec : Rec) : Prop := ∀ j a m env st r, rec j a m env st = some r → Q r.raw
 
-@[simp] theorem prepend_raw (raw surv : List Ev) (r : Ret) : (r.prepend raw surv).raw = raw ++ r.raw := rfl
-@[simp] theorem dropOnFail_raw (r : Ret) : r.dropOnFail.raw = r.raw := by
-  unfold Ret.dropOnFail; split <;> rfl
-@[simp] theorem guardRestore_raw (m : RMode) (c : Cursor) (r : Ret) : (guardRestore m c r).raw = r.raw := by
-  unfold guardRestore; split <;> rfl
-@[simp] theorem alwaysRestore_raw (c : Cursor) (r : Ret) : (alwaysRestore c r).raw = r.raw := rfl
+theorem RawClosed.toE {Q : List Ev → Prop} (hQ : RawClosed Q) : RawClosedE (fun _ => Q) where
+  nil := fun _ => hQ.nil
+  app := hQ.app
+  raise := fun _ => hQ.raise
+  fam := id
+  scope := by
+    intro env l o ho q
+    have : Ev.sctor (env.sd + 1) :: l ++ o ++ [Ev.sdtor (env.sd + 1)] =
+        [Ev.sctor (env.sd + 1)] ++ (l ++ (o ++ [Ev.sdtor (env.sd + 1)])) := by simp
+    rw [this]
+    refine hQ.app (hQ.sctor _) (hQ.app q (hQ.app ?_ (hQ.sdtor _)))
+    rcases ho with rfl | ⟨c, rfl⟩
+    · exact hQ.nil
+    · exact hQ.ssucc _ _ _
 
-section
-variable {Q : List Ev → Prop} (hQ : RawClosed Q) {rec : Rec} (hrec : QRec Q rec)
-include hQ hrec
-
-theorem seqAll_raw (a : AMode) (m : RMode) (env : Env) :
-    ∀ (cs : List Nat) (st : St) (r : Ret), seqAll rec a m env cs st = some r → Q r.raw := by
-  intro cs
-  induction cs with
-  | nil => intro st r h; simp only [seqAll, Option.some.injEq] at h; subst h; exact hQ.nil
-  | cons c cs ih =>
-    intro st r h
-    simp only [seqAll] at h
-    split at h
-    · exact absurd h (by simp)
-    · rename_i r1 h1
-      have q1 := hrec _ _ _ _ _ _ h1
-      split at h
-      · split at h
-        · exact absurd h (by simp)
-        · rename_i r2 h2
-          simp only [Option.some.injEq] at h; subst h
-          exact hQ.app q1 (ih _ _ h2)
-      · simp only [Option.some.injEq] at h; subst h; exact q1
-
-theorem sorAny_raw (a : AMode) (m : RMode) (env : Env) :
-    ∀ (cs : List Nat) (st : St) (r : Ret), sorAny rec a m env cs st = some r → Q r.raw := by
-  intro cs
-  induction cs with
-  | nil => intro st r h; simp only [sorAny, Option.some.injEq] at h; subst h; exact hQ.nil
-  | cons c cs ih =>
-    intro st r h
-    cases cs with
-    | nil => simp only [sorAny] at h; exact hrec _ _ _ _ _ _ h
-    | cons c' cs' =>
-      simp only [sorAny] at h
-      split at h
-      · exact absurd h (by simp)
-      · rename_i r1 h1
-        have q1 := hrec _ _ _ _ _ _ h1
-        split at h
-        · split at h
-          · exact absurd h (by simp)
-          · rename_i r2 h2
-            simp only [Option.some.injEq] at h; subst h
-            exact hQ.app q1 (ih _ _ h2)
-        · simp only [Option.some.injEq] at h; subst h; exact q1
-
-theorem loopStar_raw (a : AMode) (env : Env) (cs : List Nat) :
-    ∀ (k : Nat) (st : St) (r : Ret), loopStar rec a env cs k st = some r → Q r.raw := by
-  intro k
-  induction k with
-  | zero => intro st r h; simp [loopStar] at h
-  | succ k ih =>
-    intro st r h
-    simp only [loopStar] at h
-    split at h
-    · exact absurd h (by simp)
-    · rename_i r1 h1
-      have q1 := seqAll_raw hQ hrec a .required env cs st r1 h1
-      split at h
-      · split at h
-        · exact absurd h (by simp)
-        · rename_i r2 h2
-          simp only [Option.some.injEq] at h; subst h
-          exact hQ.app q1 (ih _ _ h2)
-      · simp only [Option.some.injEq] at h; subst h; exact q1
-      · simp only [Option.some.injEq] at h; subst h; exact q1
-
-theorem repN_raw (a : AMode) (m : RMode) (env : Env) (c : Nat) :
-    ∀ (k : Nat) (st : St) (r : Ret), repN rec a m env c k st = some r → Q r.raw := by
-  intro k
-  induction k with
-  | zero => intro st r h; simp only [repN, Option.some.injEq] at h; subst h; exact hQ.nil
-  | succ k ih =>
-    intro st r h
-    simp only [repN] at h
-    split at h
-    · exact absurd h (by simp)
-    · rename_i r1 h1
-      have q1 := hrec _ _ _ _ _ _ h1
-      split at h
-      · split at h
-        · exact absurd h (by simp)
-        · rename_i r2 h2
-          simp only [Option.some.injEq] at h; subst h
-          exact hQ.app q1 (ih _ _ h2)
-      · simp only [Option.some.injEq] at h; subst h; exact q1
-
-theorem repUpTo_raw (a : AMode) (env : Env) (c : Nat) :
-    ∀ (k : Nat) (st : St) (r : Ret) (full : Bool), repUpTo rec a env c k st = some (r, full) → Q r.raw := by
-  intro k
-  induction k with
-  | zero =>
-    intro st r full h
-    simp only [repUpTo, Option.some.injEq, Prod.mk.injEq] at h
-    obtain ⟨h, _⟩ := h; subst h; exact hQ.nil
-  | succ k ih =>
-    intro st r full h
-    simp only [repUpTo] at h
-    split at h
-    · exact absurd h (by simp)
-    · rename_i r1 h1
-      have q1 := hrec _ _ _ _ _ _ h1
-      split at h
-      · split at h
-        · exact absurd h (by simp)
-        · rename_i r2 full2 h2
-          simp only [Option.some.injEq, Prod.mk.injEq] at h
-          obtain ⟨h, _⟩ := h; subst h
-          exact hQ.app q1 (ih _ _ _ h2)
-      · simp only [Option.some.injEq, Prod.mk.injEq] at h
-        obtain ⟨h, _⟩ := h; subst h; exact q1
-      · simp only [Option.some.injEq, Prod.mk.injEq] at h
-        obtain ⟨h, _⟩ := h; subst h; exact q1
-
-theorem loopUntil1_raw (cx : Ctx) (a : AMode) (env : Env) (cond : Nat) :
-    ∀ (k : Nat) (st : St) (r : Ret), loopUntil1 cx rec a env cond k st = some r → Q r.raw := by
-  intro k
-  induction k with
-  | zero => intro st r h; simp [loopUntil1] at h
-  | succ k ih =>
-    intro st r h
-    simp only [loopUntil1] at h
-    split at h
-    · exact absurd h (by simp)
-    · rename_i r1 h1
-      have q1 := hrec _ _ _ _ _ _ h1
-      split at h
-      · simp only [Option.some.injEq] at h; subst h; exact q1
-      · simp only [Option.some.injEq] at h; subst h; exact q1
-      · split at h
-        · simp only [Option.some.injEq] at h; subst h; exact q1
-        · split at h
-          · exact absurd h (by simp)
-          · rename_i r2 h2
-            simp only [Option.some.injEq] at h; subst h
-            exact hQ.app q1 (ih _ _ h2)
-
-theorem loopUntil2_raw (a : AMode) (env : Env) (cond b : Nat) :
-    ∀ (k : Nat) (st : St) (r : Ret), loopUntil2 rec a env cond b k st = some r → Q r.raw := by
-  intro k
-  induction k with
-  | zero => intro st r h; simp [loopUntil2] at h
-  | succ k ih =>
-    intro st r h
-    simp only [loopUntil2] at h
-    split at h
-    · exact absurd h (by simp)
-    · rename_i r1 h1
-      have q1 := hrec _ _ _ _ _ _ h1
-      split at h
-      · simp only [Option.some.injEq] at h; subst h; exact q1
-      · simp only [Option.some.injEq] at h; subst h; exact q1
-      · split at h
-        · exact absurd h (by simp)
-        · rename_i r2 h2
-          have q2 := hrec _ _ _ _ _ _ h2
-          split at h
-          · split at h
-            · exact absurd h (by simp)
-            · rename_i r3 h3
-              simp only [Option.some.injEq] at h; subst h
-              simp only [prepend_raw, List.append_assoc]
-              exact hQ.app q1 (hQ.app q2 (ih _ _ h3))
-          · simp only [Option.some.injEq] at h; subst h
-            exact hQ.app q1 q2
-
-theorem loopStarStrict_raw (a : AMode) (env : Env) (c rest : Nat) :
-    ∀ (k : Nat) (st : St) (r : Ret), loopStarStrict rec a env c rest k st = some r → Q r.raw := by
-  intro k
-  induction k with
-  | zero => intro st r h; simp [loopStarStrict] at h
-  | succ k ih =>
-    intro st r h
-    simp only [loopStarStrict] at h
-    split at h
-    · exact absurd h (by simp)
-    · rename_i r1 h1
-      have q1 := hrec _ _ _ _ _ _ h1
-      split at h
-      · simp only [Option.some.injEq] at h; subst h; exact q1
-      · simp only [Option.some.injEq] at h; subst h; exact q1
-      · split at h
-        · exact absurd h (by simp)
-        · rename_i r2 h2
-          have q2 := hrec _ _ _ _ _ _ h2
-          split at h
-          · split at h
-            · exact absurd h (by simp)
-            · rename_i r3 h3
-              simp only [Option.some.injEq] at h; subst h
-              simp only [prepend_raw, List.append_assoc]
-              exact hQ.app q1 (hQ.app q2 (ih _ _ h3))
-          · simp only [Option.some.injEq] at h; subst h
-            exact hQ.app q1 q2
-
-theorem rematchAll_raw (a : AMode) (env : Env) (saved : Cursor) :
-    ∀ (rs : List Nat) (st : St) (r : Ret), rematchAll rec a env saved rs st = some r → Q r.raw := by
-  intro rs
-  induction rs with
-  | nil => intro st r h; simp only [rematchAll, Option.some.injEq] at h; subst h; exact hQ.nil
-  | cons c cs ih =>
-    intro st r h
-    simp only [rematchAll] at h
-    split at h
-    · exact absurd h (by simp)
-    · rename_i r1 h1
-      have q1 := hrec _ _ _ _ _ _ h1
-      split at h
-      · split at h
-        · exact absurd h (by simp)
-        · rename_i r2 h2
-          simp only [Option.some.injEq] at h; subst h
-          exact hQ.app q1 (ih _ r2 h2)
-      · simp only [Option.some.injEq] at h; subst h; exact q1
-
-/-- The trace of every rule body satisfies any trace predicate closed under concatenation and
-    `raise` events, given that the traces of its sub-rule calls do. -/
-theorem body_raw (cx : Ctx) (k : Nat) (kind : Kind) (a : AMode) (m : RMode) (env : Env) (st : St) (r : Ret)
-    (h : body cx rec k kind a m env st = some r) : Q r.raw := by
-  cases kind with
-  | atom atm => simp only [body, Option.some.injEq] at h; subst h; exact hQ.nil
-  | seq cs =>
-    simp only [body] at h
-    split at h
-    · exact hrec _ _ _ _ _ _ h
-    · simp only [Option.map_eq_some_iff] at h
-      obtain ⟨r0, h0, rfl⟩ := h
-      simpa using seqAll_raw hQ hrec _ _ _ _ _ _ h0
-  | sor cs => simp only [body] at h; exact sorAny_raw hQ hrec _ _ _ _ _ _ h
-  | starPartial cs => simp only [body] at h; exact loopStar_raw hQ hrec _ _ _ _ _ _ h
-  | partialR cs =>
-    simp only [body, Option.map_eq_some_iff] at h
-    obtain ⟨r0, h0, rfl⟩ := h
-    have := seqAll_raw hQ hrec _ _ _ _ _ _ h0
-    split <;> exact this
-  | plus c =>
-    simp only [body] at h
-    split at h
-    · exact absurd h (by simp)
-    · rename_i r1 h1
-      have q1 := hrec _ _ _ _ _ _ h1
-      split at h
-      · simp only [Option.map_eq_some_iff] at h
-        obtain ⟨r2, h2, rfl⟩ := h
-        exact hQ.app q1 (loopStar_raw hQ hrec _ _ _ _ _ _ h2)
-      · simp only [Option.some.injEq] at h; subst h; exact q1
-  | atR c =>
-    simp only [body, Option.map_eq_some_iff] at h
-    obtain ⟨r0, h0, rfl⟩ := h
-    exact hrec _ _ _ _ _ r0 h0
-  | notAt c =>
-    simp only [body, Option.map_eq_some_iff] at h
-    obtain ⟨r0, h0, rfl⟩ := h
-    have := hrec _ _ _ _ _ _ h0
-    split <;> exact this
-  | until1 cond =>
-    simp only [body, Option.map_eq_some_iff] at h
-    obtain ⟨r0, h0, rfl⟩ := h
-    simpa using loopUntil1_raw hQ hrec _ _ _ _ _ _ _ h0
-  | until2 cond b =>
-    simp only [body, Option.map_eq_some_iff] at h
-    obtain ⟨r0, h0, rfl⟩ := h
-    simpa using loopUntil2_raw hQ hrec _ _ _ _ _ _ _ h0
-  | rep n c =>
-    simp only [body, Option.map_eq_some_iff] at h
-    obtain ⟨r0, h0, rfl⟩ := h
-    simpa using repN_raw hQ hrec _ _ _ _ _ _ _ h0
-  | repMinMax lo hi c na =>
-    simp only [body] at h
-    split at h
-    · exact absurd h (by simp)
-    · rename_i r1 h1
-      have q1 := repN_raw hQ hrec _ _ _ _ _ _ _ h1
-      split at h
-      · split at h
-        · exact absurd h (by simp)
-        · rename_i r2 full h2
-          have q2 := repUpTo_raw hQ hrec _ _ _ _ _ _ _ h2
-          split at h
-          · split at h
-            · exact absurd h (by simp)
-            · rename_i r3 h3
-              simp only [Option.some.injEq] at h; subst h
-              have q3 := hrec _ _ _ _ _ _ h3
-              simp only [dropOnFail_raw, guardRestore_raw, prepend_raw]
-              exact hQ.app (hQ.app q1 q2) q3
-          · simp only [Option.some.injEq] at h; subst h
-            simp only [dropOnFail_raw, guardRestore_raw, prepend_raw]
-            exact hQ.app q1 q2
-      · simp only [Option.some.injEq] at h; subst h
-        simpa using q1
-  | repOpt n c =>
-    simp only [body, Option.map_eq_some_iff] at h
-    obtain ⟨⟨r0, full⟩, h0, rfl⟩ := h
-    exact repUpTo_raw hQ hrec _ _ _ _ _ _ _ h0
-  | ifThenElse c t e =>
-    simp only [body] at h
-    split at h
-    · exact absurd h (by simp)
-    · rename_i r1 h1
-      have q1 := hrec _ _ _ _ _ _ h1
-      split at h
-      · simp only [Option.map_eq_some_iff] at h
-        obtain ⟨r2, h2, rfl⟩ := h
-        simpa using hQ.app q1 (hrec _ _ _ _ _ _ h2)
-      · simp only [Option.map_eq_some_iff] at h
-        obtain ⟨r2, h2, rfl⟩ := h
-        simpa using hQ.app q1 (hrec _ _ _ _ _ _ h2)
-      · simp only [Option.some.injEq] at h; subst h
-        simpa using q1
-  | strict c rest =>
-    simp only [body] at h
-    split at h
-    · exact absurd h (by simp)
-    · rename_i r1 h1
-      have q1 := hrec _ _ _ _ _ _ h1
-      split at h
-      · simp only [Option.map_eq_some_iff] at h
-        obtain ⟨r2, h2, rfl⟩ := h
-        simpa using hQ.app q1 (hrec _ _ _ _ _ _ h2)
-      · simp only [Option.some.injEq] at h; subst h; exact q1
-      · simp only [Option.some.injEq] at h; subst h
-        simpa using q1
-  | starStrict c rest =>
-    simp only [body, Option.map_eq_some_iff] at h
-    obtain ⟨r0, h0, rfl⟩ := h
-    simpa using loopStarStrict_raw hQ hrec _ _ _ _ _ _ _ h0
-  | rematch head rs =>
-    simp only [body] at h
-    split at h
-    · exact hrec _ _ _ _ _ _ h
-    · split at h
-      · exact absurd h (by simp)
-      · rename_i r1 h1
-        have q1 := hrec _ _ _ _ _ _ h1
-        split at h
-        · split at h
-          · exact absurd h (by simp)
-          · rename_i r2 h2
-            simp only [Option.some.injEq] at h; subst h
-            have q2 := rematchAll_raw hQ hrec _ _ _ _ _ _ h2
-            simp only [dropOnFail_raw, guardRestore_raw, prepend_raw]
-            exact hQ.app q1 q2
-        · simp only [Option.some.injEq] at h; subst h
-          simpa using q1
-  | must c =>
-    simp only [body] at h
-    split at h
-    · exact absurd h (by simp)
-    · rename_i r1 h1
-      have q1 := hrec _ _ _ _ _ _ h1
-      split at h
-      · simp only [Option.some.injEq] at h; subst h
-        exact hQ.app q1 (hQ.raise _ _)
-      · simp only [Option.some.injEq] at h; subst h; exact q1
-  | ifMust dflt cond mn =>
-    simp only [body] at h
-    split at h
-    · exact absurd h (by simp)
-    · rename_i r1 h1
-      have q1 := hrec _ _ _ _ _ _ h1
-      split at h
-      · simp only [Option.map_eq_some_iff] at h
-        obtain ⟨r2, h2, rfl⟩ := h
-        have q2 := hrec _ _ _ _ _ _ h2
-        split
-        · simpa using hQ.app q1 q2
-        · exact hQ.app q1 q2
-      · simp only [Option.some.injEq] at h; subst h; exact q1
-      · simp only [Option.some.injEq] at h; subst h; exact q1
-  | raise t =>
-    simp only [body, Option.some.injEq] at h; subst h
-    exact hQ.raise _ _
-  | tryCatchReturnFalse ex c =>
-    simp only [body, Option.map_eq_some_iff] at h
-    obtain ⟨r0, h0, rfl⟩ := h
-    have q := hrec _ _ _ _ _ _ h0
-    simp only [dropOnFail_raw, guardRestore_raw]
-    split
-    · split <;> exact q
-    · exact q
-  | tryCatchRaiseNested ex c =>
-    simp only [body, Option.map_eq_some_iff] at h
-    obtain ⟨r0, h0, rfl⟩ := h
-    have q := hrec _ _ _ _ _ _ h0
-    simp only [dropOnFail_raw, guardRestore_raw]
-    split
-    · split <;> exact q
-    · exact q
-  | enable c => simp only [body] at h; exact hrec _ _ _ _ _ _ h
-  | disable c => simp only [body] at h; exact hrec _ _ _ _ _ _ h
-  | action fam c => simp only [body] at h; exact hrec _ _ _ _ _ _ h
-
-end
+/-- The trace of every rule body satisfies any trace predicate closed under concatenation, `raise`
+    events and state-object events, given that the traces of its sub-rule calls do. -/
+theorem body_raw {Q : List Ev → Prop} (hQ : RawClosed Q) {rec : Rec} (hrec : QRec Q rec) (cx : Ctx) (k : Nat)
+    (kind : Kind) (a : AMode) (m : RMode) (env : Env) (st : St) (r : Ret)
+    (h : body cx rec k kind a m env st = some r) : Q r.raw :=
+  body_rawE hQ.toE cx k kind a (fun j m env st r h => hrec j a m env st r h)
+    (fun j m env st r h => hrec j .nothing m env st r h) (fun _ j m env st r h => hrec j .action m env st r h) m env st r h
 
 end Pegtl
